@@ -349,7 +349,7 @@ PATH_CONTEXTS = [
 ]
 
 
-def nested_path(r: random.Random, depth: int, counter: list[int], start: int = 0) -> dict:
+def nested_path(r: random.Random, depth: int, counter: list[int], start: int = 0, sh: bool = False) -> dict:
     """A variable path with nested bracketed paths; every path node records the
     absolute offset of its first character, its own text and its root name."""
     counter[0] += 1
@@ -358,7 +358,9 @@ def nested_path(r: random.Random, depth: int, counter: list[int], start: int = 0
     text = root
     for _ in range(r.randint(1, 3)):
         k = r.random()
-        if k < 0.3:
+        if sh and k < 0.2:
+            text += "." + r.choice(["0", "1", "12", "-1"])      # shorthand index (env.shorthand_indexes)
+        elif k < 0.3:
             text += "." + r.choice(["title", "b", "x-y", "size"])
         elif k < 0.4:
             text += "[" + r.choice(["0", "1", "-1"]) + "]"
@@ -366,11 +368,13 @@ def nested_path(r: random.Random, depth: int, counter: list[int], start: int = 0
             text += "[" + r.choice(["'k'", '"k"', "'a b'"]) + "]"
         elif depth > 0:
             ws = r.choice(["", "", "", " ", "\n  ", "\n"])
-            child = nested_path(r, depth - 1, counter, start + len(text) + 1 + len(ws))
+            child = nested_path(r, depth - 1, counter, start + len(text) + 1 + len(ws), sh)
             node["children"].append(child)
             text += "[" + ws + child["text"] + "]"
         else:
             text += ".p"
+    if sh and r.random() < 0.5:
+        text += "." + r.choice(["0", "1", "7"])                  # the path ENDS in a shorthand index
     node["text"] = text
     return node
 
@@ -382,17 +386,18 @@ def path_nodes(node: dict) -> list[dict]:
     return out
 
 
-def nested_path_cases(r: random.Random, tier: str) -> list[tuple[str, list[dict], bool]]:
-    """(source, path nodes with absolute positions, must-raise-under-StrictUndefined)."""
+def nested_path_cases(r: random.Random, tier: str) -> list[tuple[str, list[dict], bool, bool]]:
+    """(source, path nodes with absolute positions, must-raise-under-StrictUndefined, shorthand_indexes)."""
     out = []
     n = 400 if tier == "thorough" else 60
-    fixed = 0
-    for k in range(n):
-        pre, post, must = PATH_CONTEXTS[k % len(PATH_CONTEXTS)]
-        counter = [0]
-        node = nested_path(r, r.randint(1, 3), counter, len(pre))
-        if not node["children"] and fixed < n // 2:
-            node = nested_path(r, 2, [0], len(pre))
-            fixed += 1
-        out.append((pre + node["text"] + post, path_nodes(node), must))
+    for sh in (False, True):
+        fixed = 0
+        for k in range(n):
+            pre, post, must = PATH_CONTEXTS[k % len(PATH_CONTEXTS)]
+            counter = [0]
+            node = nested_path(r, r.randint(1, 3), counter, len(pre), sh)
+            if not node["children"] and fixed < n // 2:
+                node = nested_path(r, 2, [0], len(pre), sh)
+                fixed += 1
+            out.append((pre + node["text"] + post, path_nodes(node), must, sh))
     return out
